@@ -123,6 +123,58 @@ fn suite_checks<S: HSuite>(ctx: &Ctx, ml: &[usize], dl: &[usize], full_every: u6
     );
 }
 
+/// dense (message length, tag length) coverage: the byte handling in front of the map (buffers, padding, length bytes) is
+/// exercised at EVERY message length up to a bound for several tag lengths (thorough: the full grid with every tag length
+/// 0..=255). Expected value: the library's own map/map2 stage (tied to the RFC composition by C14) applied to the reference
+/// hash_to_field output - cheap enough for tens of thousands of cases.
+fn length_grid<S: HSuite>(ctx: &Ctx) {
+    let name = S::NAME;
+    let mut cases: Vec<(usize, usize)> = vec![];
+    if ctx.quick() {
+        for &d in &[0usize, 43, 50, 255] {
+            for m in 0..=200 {
+                cases.push((m, d));
+            }
+        }
+    } else {
+        for d in 0..=255usize {
+            for m in 0..=260 {
+                cases.push((m, d));
+            }
+        }
+    }
+    // variants: quick = both modes x both XMD hashes + RO x both XOFs ; thorough = everything
+    let variants: Vec<(bool, Expander)> = if ctx.quick() {
+        vec![(true, EXPANDERS[0]), (false, EXPANDERS[0]), (true, EXPANDERS[1]), (false, EXPANDERS[1]), (true, EXPANDERS[2]), (true, EXPANDERS[3])]
+    } else {
+        (0..8).map(|v| (v & 1 == 0, EXPANDERS[v >> 1])).collect()
+    };
+    let rad = [cases.len() as u64, variants.len() as u64];
+    ctx.sweep(
+        &format!("{}.length_grid", name),
+        crate::infra::space(&rad),
+        |i| {
+            let d = unrank(i, &rad);
+            let (ro, h) = variants[d[1]];
+            json!({"group": name, "mode": if ro {"RO (hash_to_curve)"} else {"NU (encode_to_curve)"}, "expander": format!("{:?}", h), "msg_len": cases[d[0]].0, "dst_len": cases[d[0]].1})
+        },
+        |i| {
+            let d = unrank(i, &rad);
+            let (ro, h) = variants[d[1]];
+            let (m, dlen) = cases[d[0]];
+            let msg = fill(m, 0);
+            let dst = rfc_dst(dlen, 0);
+            let got = guard(|| S::lib_hash(h, ro, &msg, &dst)).map_err(|e| Fail::new(format!("{}: hashing panicked: {}", name, e)))?;
+            let us = S::ref_field(h, &msg, &dst, if ro { 2 } else { 1 });
+            let want = if ro { S::lib_map2(&us[0], &us[1]) } else { S::lib_map(&us[0]) };
+            if !S::raw_on_curve(&got) || S::pt_of(&got) != S::pt_of(&want) {
+                return Err(Fail::new(format!("{}: hash differs from map(hash_to_field(msg, tag)) with hash_to_field per RFC 9380 section 5.2", name)));
+            }
+            Ok(if ro { "random-oracle mode" } else { "non-uniform mode" })
+        },
+    );
+}
+
 fn suite_interleaving(ctx: &Ctx) {
     let inputs: Vec<(Vec<u8>, Vec<u8>)> = vec![(b"".to_vec(), b"QUUX-V01-CS02-with-suite".to_vec()), (fill(65, 0), rfc_dst(43, 0)), (fill(3, 1), rfc_dst(255, 0))];
     // variant = (group, mode, expander)
@@ -206,6 +258,8 @@ pub fn run(ctx: &Ctx) -> (&'static str, &'static str) {
     // "depends only on (message, tag)": every ordered pair of the 16 suite variants evaluated back to back on the
     // SAME message and tag in one fresh thread (a cache keyed too coarsely would hand the first result to the second)
     suite_interleaving(ctx);
+    length_grid::<RG1>(ctx);
+    length_grid::<RG2>(ctx);
     // RFC 9380 Appendix J vectors (transcribed): J.9.1 (G1 RO), J.10.1 (G2 RO)
     let vectors = vec![
         Vector {
@@ -260,6 +314,6 @@ pub fn run(ctx: &Ctx) -> (&'static str, &'static str) {
     ctx.assume("cofactor clearing in the bulk comparison uses the library stage on the reference sum (C17); every 3rd-61st case uses a full big-integer [h_eff] multiplication and a big-integer subgroup test");
     (
         "exploration",
-        "full cross product {G1,G2} x {random-oracle, non-uniform} x {XMD-SHA-256, XMD-SHA-512, XOF-SHAKE128, XOF-SHAKE256} x message lengths at every hash-block / padding / sponge-rate boundary x 2 contents x tag lengths 0..255 at boundaries x 2 contents, each call compared with the reference pipeline hash_to_field -> simplified SWU -> isogeny -> addition -> cofactor clearing on big integers; repeated evaluation; RFC 9380 Appendix J vectors; non-trivial = every call (no default class)",
+        "full cross product {G1,G2} x {random-oracle, non-uniform} x {XMD-SHA-256, XMD-SHA-512, XOF-SHAKE128, XOF-SHAKE256} x message lengths at every hash-block / padding / sponge-rate boundary x 2 contents x tag lengths 0..255 at boundaries x 2 contents, each call compared with the reference pipeline hash_to_field -> simplified SWU -> isogeny -> addition -> cofactor clearing on big integers; repeated evaluation; every message length 0..200 x tag lengths {0,43,50,255} (thorough: the full grid 0..260 x 0..255) against the library map stage applied to the reference hash_to_field output; RFC 9380 Appendix J vectors; non-trivial = every call (no default class)",
     )
 }
